@@ -17,6 +17,7 @@ pub mod c18;
 pub mod c19;
 pub mod c20;
 pub mod replay;
+pub mod selftest;
 
 use crate::common::{Coverage, Ctx};
 
